@@ -23,12 +23,13 @@ typedef struct {
   int nclients, nops;
   int stayopen, usevc, igntc, rotate, tfo, einprogress, nbflag;
   int udp_max_queries;
-  int tries, timeout_ms, maxtimeout_ms, nsrv;
+  int tries, timeout_ms, maxtimeout_ms, nsrv, nsrv_max;
   int qcache;
   int lookups; /* 0 "b" 1 "bf" 2 "fb" */
   int servers_from_resolvconf;
   int inj_density;
   int destroy_outstanding;
+  int reload_vs_destroy; /* rewrite resolv.conf right before ares_destroy() */
   int reinit_mode; /* 0 none 1 one client 2 all clients 3 config-change only (event thread) 4 all + config-change */
   int beh[ET_NSRV];
   int delay_ms[ET_NSRV];
@@ -36,17 +37,20 @@ typedef struct {
   int quiesce;
   int weights[32];
   /* timers profile */
-  int conn_sit, srv_sit, offset_us, burst, second_client;
+  int conn_sit, srv_sit, offset_us, burst, second_client, idle_after_timeout;
 } et_cfg_t;
 static et_cfg_t et_cfg;
 
 /* budget of one low-level query: every try is capped by maxtimeout (ARES_OPT_MAXTIMEOUTMS is always set, and
  * the library never lets a single try wait longer than that); a query is tried at most tries*nservers times;
  * two more rounds are granted for the TCP retry after a truncated answer and for a requeue after a server-list
- * change.  nservers is the largest list the case ever configures. */
+ * change.  nservers (nsrv_max) is the largest list the case ever configures: 3 in `stress` (server-change
+ * operations and resolv.conf variants name at most 3 servers), 2 in `timers`.
+ *   deadline(request) = issue time + 4 * budget * nseq + 3 s,   nseq = 3 for search-list walkers (as-is name +
+ *   2 search domains, looked up one after the other), else 1. */
 static int et_query_budget_ms(void)
 {
-  return (et_cfg.tries * ET_NSRV + 2) * et_cfg.maxtimeout_ms;
+  return (et_cfg.tries * et_cfg.nsrv_max + 2) * et_cfg.maxtimeout_ms;
 }
 
 /* ---------- operation kinds ---------- */
@@ -499,6 +503,21 @@ static void et_observe_reload(const char *csv)
   }
 }
 
+/* every library call of a client sits in its own frame named after the entry point, so that a sanitizer
+ * stack that lost the library frame (intercepted memcpy in a leaf) still names the call */
+#define ET_NOINLINE __attribute__((noinline))
+static ET_NOINLINE void et_api_cancel(void) { ares_cancel(et_channel); }
+static ET_NOINLINE int et_api_set_servers_ports_csv(const char *c) { return ares_set_servers_ports_csv(et_channel, c); }
+static ET_NOINLINE int et_api_set_servers_csv(const char *c) { return ares_set_servers_csv(et_channel, c); }
+static ET_NOINLINE int et_api_set_sortlist(const char *c) { return ares_set_sortlist(et_channel, c); }
+static ET_NOINLINE ares_status_t et_api_reinit(void) { return ares_reinit(et_channel); }
+static ET_NOINLINE size_t et_api_queue_active_queries(void) { return ares_queue_active_queries(et_channel); }
+static ET_NOINLINE char *et_api_get_servers_csv(void) { return ares_get_servers_csv(et_channel); }
+static ET_NOINLINE int et_api_save_options(struct ares_options *o, int *mask) { return ares_save_options(et_channel, o, mask); }
+static ET_NOINLINE void et_api_timeout(struct timeval *maxtv, struct timeval *tv) { (void)ares_timeout(et_channel, maxtv, tv); }
+static ET_NOINLINE int et_api_dup(ares_channel_t **d) { return ares_dup(d, et_channel); }
+static ET_NOINLINE ares_status_t et_api_queue_wait_empty(int ms) { return ares_queue_wait_empty(et_channel, ms); }
+
 static void et_record_wait(int timeout_ms, int quiesced)
 {
   int           i = atomic_fetch_add(&et_nwaits, 1);
@@ -506,7 +525,7 @@ static void et_record_wait(int timeout_ms, int quiesced)
   ares_status_t st;
   if (i >= ET_MAX_WAITS) {
     atomic_fetch_sub(&et_nwaits, 1);
-    (void)ares_queue_wait_empty(et_channel, timeout_ms);
+    (void)et_api_queue_wait_empty(timeout_ms);
     return;
   }
   w = &et_waits[i];
@@ -515,9 +534,9 @@ static void et_record_wait(int timeout_ms, int quiesced)
   atomic_store(&w->active_after, -1);
   atomic_store(&w->t2, 0);
   atomic_store(&w->t1, et_seq());
-  st = ares_queue_wait_empty(et_channel, timeout_ms);
+  st = et_api_queue_wait_empty(timeout_ms);
   if (quiesced && st == ARES_SUCCESS) {
-    atomic_store(&w->active_after, (int)ares_queue_active_queries(et_channel));
+    atomic_store(&w->active_after, (int)et_api_queue_active_queries());
   }
   atomic_store(&w->status, (int)st);
   atomic_store(&w->t2, et_seq());
@@ -557,19 +576,19 @@ static void et_do_op(et_client_t *c, int kind)
       }
       break;
     case K_CANCEL:
-      ares_cancel(et_channel);
+      et_api_cancel();
       break;
     case K_SETSRV_PORTS:
-      ares_set_servers_ports_csv(et_channel, et_srv_csv_ports[vh_below(g, 6)]);
+      et_api_set_servers_ports_csv(et_srv_csv_ports[vh_below(g, 6)]);
       break;
     case K_SETSRV:
-      ares_set_servers_csv(et_channel, et_srv_csv[vh_below(g, 4)]);
+      et_api_set_servers_csv(et_srv_csv[vh_below(g, 4)]);
       break;
     case K_SORTLIST:
-      ares_set_sortlist(et_channel, et_sortlists[vh_below(g, 4)]);
+      et_api_set_sortlist(et_sortlists[vh_below(g, 4)]);
       break;
     case K_REINIT:
-      if (ares_reinit(et_channel) != ARES_SUCCESS) {
+      if (et_api_reinit() != ARES_SUCCESS) {
         c->reinit_fail++;
       }
       break;
@@ -580,11 +599,11 @@ static void et_do_op(et_client_t *c, int kind)
       et_record_wait(-1, 0);
       break;
     case K_ACTIVE:
-      (void)ares_queue_active_queries(et_channel);
+      (void)et_api_queue_active_queries();
       break;
     case K_GETSRV:
       {
-        char *s = ares_get_servers_csv(et_channel);
+        char *s = et_api_get_servers_csv();
         et_observe_reload(s);
         ares_free_string(s);
       }
@@ -594,7 +613,7 @@ static void et_do_op(et_client_t *c, int kind)
         struct ares_options o;
         int                 mask = 0;
         memset(&o, 0, sizeof(o));
-        if (ares_save_options(et_channel, &o, &mask) == ARES_SUCCESS) {
+        if (et_api_save_options(&o, &mask) == ARES_SUCCESS) {
           ares_destroy_options(&o);
         }
       }
@@ -602,13 +621,13 @@ static void et_do_op(et_client_t *c, int kind)
     case K_TIMEOUT:
       {
         struct timeval maxtv = { 1, 0 }, tv;
-        (void)ares_timeout(et_channel, vh_chance(g, 1, 2) ? &maxtv : NULL, &tv);
+        et_api_timeout(vh_chance(g, 1, 2) ? &maxtv : NULL, &tv);
       }
       break;
     case K_DUP:
       {
         ares_channel_t *d = NULL;
-        if (ares_dup(&d, et_channel) == ARES_SUCCESS && d != NULL) {
+        if (et_api_dup(&d) == ARES_SUCCESS && d != NULL) {
           if (vh_chance(g, 1, 2)) {
             et_reqspec_t sp;
             et_make_spec(g, K_QUERY, &sp, 0);
@@ -739,7 +758,10 @@ static void et_die(const char *text)
   r = write(1, tail, (size_t)n);
   (void)r;
   et_cleanup_scratch();
-  /* TSan reports are on stderr already; exit 66 (TSAN_OPTIONS exitcode) makes the driver key them */
+  /* TSan reports are on stderr already; exit 66 (TSAN_OPTIONS exitcode) makes the driver key them.  The raw
+   * system call is used because TSan's _exit() interceptor would run its end-of-process checks and report the
+   * harness threads nobody can join any more as leaked. */
+  syscall(SYS_exit_group, rep > 0 ? 66 : 0);
   _exit(rep > 0 ? 66 : 0);
 }
 
@@ -861,7 +883,7 @@ static void et_gdb_lib_frames(const char *txt, int lwp, char *out, size_t cap)
   if (end == NULL) {
     end = p + strlen(p);
   }
-  while (p < end && n < 2) {
+  while (p < end && n < 3) {
     const char *ln = strchr(p, '\n');
     const char *e2;
     if (ln == NULL || ln >= end) {
@@ -1004,14 +1026,14 @@ static void *et_monitor(void *arg)
           snprintf(line, sizeof(line),
                    "V %llu timer:et:missed-deadline:%s:%s | request #%d (%s) issued %.0f ms ago is still outstanding "
                    "%.0f ms after its deadline (4 x budget %d ms x %d + 3000 ms); outstanding=%d; backend=%s "
-                   "stayopen=%d usevc=%d timeout=%d tries=%d; the event thread has been inside its wait since before "
+                   "stayopen=%d usevc=%d timeout=%d tries=%d idle_after_timeout=%d; the event thread has been inside its wait since before "
                    "and nothing woke it: %s\n",
                    (unsigned long long)et_cur_idx, et_conn_name[atomic_load(&r->conn_sit)],
                    et_sit_name[atomic_load(&r->srv_sit)], overdue, et_kind_name[atomic_load(&r->kind)],
                    (double)(now - atomic_load(&r->t_issue)) / 1e6, (double)(now - atomic_load(&r->deadline)) / 1e6,
                    et_query_budget_ms(), et_req_nseq(atomic_load(&r->kind)), atomic_load(&et_outstanding),
                    et_backend_name[et_cfg.backend == 0 ? 0 : et_cfg.backend - 1], et_cfg.stayopen, et_cfg.usevc,
-                   et_cfg.timeout_ms, et_cfg.tries, ring);
+                   et_cfg.timeout_ms, et_cfg.tries, et_cfg.idle_after_timeout, ring);
           et_die(line);
         }
         if (confirm_req != overdue || confirm_slot != slot) {
